@@ -1,5 +1,5 @@
 """C12 -- queries return exactly the objects satisfying every filter."""
-from engine.spec import CH
+from engine.spec import CH, JOB
 
 H = "props.h_C12"
 FF = ["stix2.datastore.filters.Filter._check_property", "stix2.datastore.filters._check_filter", "stix2.datastore.filters.apply_common_filters",
@@ -12,7 +12,7 @@ FMT = "message formatting of symbolic values is opaque text (CrossHair plugin)"
 FSS = "os/io calls of stix2.datastore.filesystem replaced by an in-memory file system with POSIX semantics (props/fakefs.py)"
 
 META = {
-    "engines": ["crosshair"],
+    "engines": ["crosshair", "pysym"],
     "level_text": "Bounded symbolic model checking of the real filter code: every operator on scalar, list-valued and dotted (nested dict / list of "
                   "dicts) properties with unbounded symbolic integers and strings <= 2 chars against the documented semantics; conjunction = "
                   "intersection and monotonicity with two symbolic filters; timestamp-string filters in every legal spelling vs datetime-valued "
@@ -40,6 +40,10 @@ def obligations(tier):
         CH("conjunction_is_intersection", H, "conjunction", t, functions=FF[:3], stubs=[FMT], bounds="two symbolic filters over two objects, unbounded ints"),
         CH("timestamp_strings_as_instants", H, "timestamps", t, mode="E1s", functions=FF[:2] + FM[:1],
            bounds="5 instants x every spelling of the filter string x 6 operators x (direct, MemorySource.query)"),
+        JOB("timestamp_texts_compared_as_instants", "props.j_time", "job_filter_timestamp_texts", 600, functions=["stix2.datastore.filters.Filter._check_property", "stix2.utils.parse_into_datetime"],
+            stubs=["_TIMESTAMP_RE.match answers true (the generated texts are canonical timestamps by construction)"],
+            bounds="6 operators x every pair of canonical timestamp texts with %s fraction-digit combinations (symbolic fields and digits), property value and filter value both text" % (
+                "4" if tier == "quick" else "25")),
         CH("contains_on_every_property_kind", H, "contains_kinds", t, mode="E1s", functions=FF[:2] + FM[:1],
            bounds="26 (document, path, value) cases: strings (substring), dictionaries (key; value for a dict filter value), lists (any element), dotted paths through "
                   "dictionaries and lists x dict / library object / MemorySource / FileSystemStore x with a contradicting second filter"),
